@@ -405,6 +405,12 @@ fn main() {
             None => { println!("{{\"found\": false, \"scenario\": \"extra::{}\"}}", prop); std::process::exit(0); }
         }
     }
+    if matches!(prop.as_str(), "C19" | "C14") {
+        // `&self` operations under injected panics first (a quarter of the budget), then the ordinary operation sequences
+        if let Some(msg) = extra::search(&prop, seed, budget / 4) {
+            println!("{{\"found\": true, \"scenario\": \"extra::{}\", \"seed\": {}, \"ops\": [], \"max_size\": 0, \"capacity\": 0, \"hasher\": \"identity\", \"message\": {:?}}}", prop, seed, msg); std::process::exit(1);
+        }
+    }
     let e0 = entry_size(&0u16, &Val { heap: 0, id: 0 });
     let mut rng = Rng(seed.wrapping_mul(0x9E3779B97F4A7C15) | 1);
     let t0 = Instant::now();
@@ -559,6 +565,39 @@ mod extra {
         coherent(&c).map_err(|m| format!("[C16] using the cache after a Hash panic (hash #{}, operation {}): {}", at, op, m))
     }
 
+    /// C19 / C14 (with C16's injected panics): an operation through `&LruCache` whose user code panics half way must
+    /// leave the cache it was called on exactly as it was (clone's source in particular)
+    pub fn c19(rng: &mut Rng) -> Result<(), String> {
+        let n = 1 + rng.below(6) as u16;
+        let cap = [0usize, n as usize, 28][rng.below(3) as usize];
+        let mut c: LruCache<CKey, u32, BH> = LruCache::with_capacity_and_hasher(usize::MAX, cap, BH::default());
+        PANIC_AT.with(|p| p.set(-1));
+        for k in 0..n { c.insert(CKey(k), k as u32).unwrap(); }
+        for _ in 0..rng.below(4) { let _ = c.get(&CKey(rng.below(n as u64) as u16)); }
+        let snap = |c: &LruCache<CKey, u32, BH>| -> (Vec<(u16, u32)>, Vec<u16>, usize, usize, usize, usize) {
+            (c.iter().take(c.len() + 2).map(|(k, v)| (k.0, *v)).collect(), c.keys().rev().take(c.len() + 2).map(|k| k.0).collect(), c.len(), c.current_size(), c.max_size(), c.capacity())
+        };
+        let before = snap(&c);
+        let op = rng.below(5);
+        let at = 1 + rng.below(n as u64 + 1) as i64;
+        let k = rng.below(n as u64 + 1) as u16;
+        HASHES.with(|h| h.set(0));
+        PANIC_AT.with(|p| p.set(at));
+        let r = catch_unwind(AssertUnwindSafe(|| match op {
+            0 | 1 => { let d = c.clone(); drop(d); }
+            2 => { let _ = c.peek(&CKey(k)); }
+            3 => { let _ = c.contains(&CKey(k)); }
+            _ => { let _ = c.peek_entry(&CKey(k)); }
+        }));
+        PANIC_AT.with(|p| p.set(-1));
+        let after = snap(&c);
+        if before != after {
+            return Err(format!("[C19 C14 C16] a `&self` operation ({}) changed the cache it was called on{}: before {:?}, after {:?} (n = {}, capacity {}, Hash panic armed at hash #{})",
+                ["clone", "clone", "peek", "contains", "peek_entry"][op as usize], if r.is_err() { " while unwinding from a Hash panic" } else { "" }, before, after, n, cap, at));
+        }
+        Ok(())
+    }
+
     /// C20: at most two key hashes per operation plus one per departing entry (plus each held entry once for a rebuild)
     pub fn c20(rng: &mut Rng) -> Result<(), String> {
         let e0 = lru_mem::entry_size(&CKey(0), &0u32);
@@ -606,7 +645,7 @@ mod extra {
         let mut rng = Rng(seed.wrapping_mul(0x9E3779B97F4A7C15) | 1);
         let t0 = std::time::Instant::now();
         while t0.elapsed() < std::time::Duration::from_millis(budget_ms) {
-            let r = match prop { "C06" => c06(&mut rng), "C16" => c16(&mut rng), "C20" => c20(&mut rng), _ => return None };
+            let r = match prop { "C06" => c06(&mut rng), "C16" => c16(&mut rng), "C20" => c20(&mut rng), "C19" | "C14" => c19(&mut rng), _ => return None };
             if let Err(m) = r { return Some(m); }
         }
         None
